@@ -861,7 +861,32 @@ def _gen_chain_case(rng: random.Random) -> dict:
             'tree': _gen_tree(rng, [comps], letters.endswith('N'))}
 
 
+def _gen_literal_number_case(rng: random.Random) -> dict:
+    """One download whose OWN name already looks numbered (`song (3).mp3`) between duplicates of the plain name: the name it
+    takes as it is must be seen by the next numbering — whatever the strategy remembers about the directory."""
+    stem, ext = rng.choice([('song', '.mp3'), ('x', '.mp3'), ('x', ''), ('ünï', '.ogg'), ('a.b', '.c')])
+    base = stem + ext
+    j = rng.choice([0, 0, 1, 2])                                   # numbered copies already in the directory
+    tree = [['f', [], base]] + [['f', [], f'{stem} ({k}){ext}'] for k in range(1, j + 1)]
+    lit = f'{stem} ({j + 2}){ext}'                                  # the index AFTER the one the first duplicate gets
+    names = [base, lit, base]
+    if rng.random() < 0.3:
+        names = [base, base, lit]
+    users = ['a', 'b', 'c']
+    downloads = [f'{u}\\{nm}' for u, nm in zip(users, names)]
+    order = [0, 1, 2] if rng.random() < 0.7 else rng.sample([0, 1, 2], 3)
+    sched = []
+    for i in order:
+        sched.append(['spawn', i])
+        for _ in range(rng.choice([0, 0, 1, 2])):
+            sched.append(['release', rng.choice(order[:order.index(i) + 1])])
+    letters = rng.choice(['DN', 'DN', 'DKN', 'NDN'])
+    return {'kind': 'conc', 'strategies': letters, 'downloads': downloads, 'schedule': sched, 'tree': tree, 'outside': []}
+
+
 def _gen_conc_case(rng: random.Random) -> dict:
+    if rng.random() < 0.08:
+        return _gen_literal_number_case(rng)
     n = rng.choice([2, 2, 3])
     r = rng.random()
     if r < 0.3:
